@@ -17,6 +17,7 @@ use crate::world::*;
 
 pub const OWNER: &str = "owner";
 pub const COLLECTOR: &str = "collector";
+pub const COLLECTOR2: &str = "collectorb";
 pub const USERS: [&str; 5] = ["alice", "bobby", "carol", "david", "erin0"];
 
 #[derive(Serialize, Deserialize, Clone, Debug, PartialEq)]
@@ -73,6 +74,8 @@ pub enum Op {
     Loan { router: bool, amount: u128, program: Vec<Action> },
     Collect,
     SetFees { fees: [String; 3] },
+    /// the operator re-points the vault's fee collector address
+    SetCollector { second: bool },
     Donate { amount: u128 },
     DepositWithdraw { amount: u128 },
     /// Deposit with a coin of a foreign denom attached next to (or instead of) the vault asset
@@ -115,6 +118,7 @@ pub struct VaultScen {
     pub fee18: [u128; 3],
     pub blocks: u64,
     pub model: Model,
+    pub collector_now: String,
     /// foreign coins the next deposit message carries in addition
     pub junk_next: std::cell::Cell<u128>,
 }
@@ -130,6 +134,8 @@ pub struct Obs {
     pub users: Vec<u128>,
     pub users_lp: Vec<u128>,
     pub collector: u128,
+    /// the collector address the vault is NOT configured with
+    pub other_collector: u128,
     pub borrower: u128,
     pub borrower_lp: u128,
     pub router_bal: u128,
@@ -302,7 +308,8 @@ impl VaultScen {
             lp_vault: balance(&self.app, &self.vault, &lpi),
             users: (0..n).map(|i| balance(&self.app, USERS[i], &self.asset)).collect(),
             users_lp: (0..n).map(|i| balance(&self.app, USERS[i], &lpi)).collect(),
-            collector: balance(&self.app, COLLECTOR, &self.asset),
+            collector: balance(&self.app, &self.collector_now, &self.asset),
+            other_collector: balance(&self.app, if self.collector_now == COLLECTOR { COLLECTOR2 } else { COLLECTOR }, &self.asset),
             borrower: balance(&self.app, &self.borrower, &self.asset),
             borrower_lp: balance(&self.app, &self.borrower, &lpi),
             router_bal: balance(&self.app, &self.router, &self.asset),
@@ -500,6 +507,7 @@ impl Scenario for VaultScen {
             fee18,
             blocks: 0,
             model: Model::default(),
+            collector_now: COLLECTOR.to_string(),
             junk_next: std::cell::Cell::new(0),
         };
         // vault1 liquidity + borrower purse (both assets)
@@ -690,11 +698,12 @@ impl Scenario for VaultScen {
                 Op::Loan { router, amount, program }
             }
             3 => Op::Collect,
+            4 if rng.chance(1, 4) => Op::SetCollector { second: rng.chance(1, 2) },
             4 => Op::SetFees { fees: gen_fees(rng) },
             5 => Op::Donate { amount: rng.edge_amount(ubal / 4).max(1) },
             _ => Op::DepositWithdraw { amount: rng.edge_amount(ubal / 2).max(1) },
         };
-        let fault = match op { Op::SetFees { .. } | Op::Donate { .. } | Op::DepositWithdraw { .. } => Fault::None, _ => fault };
+        let fault = match op { Op::SetFees { .. } | Op::SetCollector { .. } | Op::Donate { .. } | Op::DepositWithdraw { .. } => Fault::None, _ => fault };
         Some(Step { actor, op, adv, fault })
     }
 
@@ -806,6 +815,9 @@ fn global_invariants(s: &mut VaultScen, ctx: &mut Ctx, before: &Obs, after: &Obs
     if !ok && (obs_key(before) != obs_key(after) || before.supply != after.supply || before.bal1 != after.bal1 || before.users != after.users) {
         ctx.fail("C06", "failed_tx_no_effect", opname, None, format!("{opname}: state changed by a failed transaction"));
     }
+    if opname != "set_collector" && before.other_collector != after.other_collector {
+        ctx.fail("C07", "nothing_else_moves", "unconfigured_collector_paid", None, format!("{opname}: the balance of a collector address the vault is not configured with changed {} -> {}", before.other_collector, after.other_collector));
+    }
 }
 
 pub fn apply(s: &mut VaultScen, step: &Step, ctx: &mut Ctx) {
@@ -906,6 +918,39 @@ pub fn apply(s: &mut VaultScen, step: &Step, ctx: &mut Ctx) {
             let Ok(after) = s.observe() else { return; };
             ctx.trace(&format!("set_fees:{}", r.outcome.kind()));
             global_invariants(s, ctx, &before, &after, r.outcome.is_ok(), "set_fees", None);
+        }
+        Op::SetCollector { second } => {
+            let target = if *second { COLLECTOR2 } else { COLLECTOR };
+            let msg = wasm_exec(&s.factory, &vault_factory::ExecuteMsg::UpdateVaultConfig {
+                vault_addr: s.vault.clone(),
+                params: vault::UpdateConfigParams { flash_loan_enabled: None, deposit_enabled: None, withdraw_enabled: None, new_owner: None, new_vault_fees: None, new_fee_collector_addr: Some(target.to_string()) },
+            }, vec![]);
+            let msg = if s.cfg.operator_borrower {
+                match &msg {
+                    CosmosMsg::Wasm(cosmwasm_std::WasmMsg::Execute { contract_addr, msg: inner, .. }) => wasm_exec(&s.borrower, &vh::ExecuteMsg::Run { program: vec![Action::Exec { contract: contract_addr.clone(), msg: inner.clone() }] }, vec![]),
+                    _ => msg,
+                }
+            } else {
+                msg
+            };
+            let r = tx(&mut s.app, OWNER, vec![msg], Fault::None);
+            ctx.op("set_collector", r.outcome.kind());
+            ctx.trace(&format!("set_collector:{target}:{}", r.outcome.kind()));
+            let prev = s.collector_now.clone();
+            if r.outcome.is_ok() {
+                s.collector_now = target.to_string();
+                ctx.probe("collector_repointed");
+            }
+            let Ok(after) = s.observe() else { return; };
+            let (c_after, o_after) = if prev == s.collector_now { (after.collector, after.other_collector) } else { (after.other_collector, after.collector) };
+            ctx.eval("C07");
+            if c_after != before.collector || o_after != before.other_collector || after.bal != before.bal || after.pending != before.pending {
+                ctx.fail("C07", "nothing_else_moves", "set_collector_moved_funds", None, format!("re-pointing the fee collector changed balances or ledgers: pending {} -> {}, vault {} -> {}", before.pending, after.pending, before.bal, after.bal));
+            }
+            if !r.outcome.is_ok() {
+                ctx.fail("C07", "collector_update", "owner_update_refused", None, format!("the owner's fee collector update failed: {}", r.outcome.err_text()));
+            }
+            global_invariants(s, ctx, &before, &after, r.outcome.is_ok(), "set_collector", None);
         }
         Op::Donate { amount } => {
             let msg = match &s.asset {
